@@ -13,7 +13,7 @@ from .c01 import gen_valued_tree
 from .c03 import TCH
 
 LEAN_MODULE = 'QbeeModel.Props.C02'
-REQUIRED = ['fold_agrees_int', 'fold_never_invents_failure', 'fold_cmp_agrees', 'fold_unary_agrees', 'ph_push_conv_int',
+REQUIRED = ['fold_operand_conv_agrees', 'fold_agrees_int', 'fold_never_invents_failure', 'fold_cmp_agrees', 'fold_unary_agrees', 'ph_push_conv_int',
             'ph_push_push_binop_int', 'ph_push_unary_int', 'long_overflow_was_folded_before_repair']
 LEVELS = [0, 1, 2, 3]
 OPMAP = {'add': 'ADD', 'sub': 'SUB', 'mul': 'MUL', 'idiv': 'INTDIV', 'mod': 'MOD', 'and': 'AND', 'or': 'OR', 'xor': 'XOR',
@@ -173,6 +173,27 @@ def run(chk):
                 chk.say('fold-int disagree:', r_, '| model', g, '| real', e)
     chk.stats['fold-int'] = {'cases': len(reqs), 'disagree': nb}
 
+    # ---- (1b) float operands of integral operations: the folder's operand conversion vs the model, at the boundaries
+    from qbee import expr as _expr
+    bvals = []
+    for lim in (2147483647, -2147483648, 32767, -32768, 0, 1, 16777216):
+        for d_ in (-1.5, -1.0, -0.75, -0.5, -0.25, 0.0, 0.25, 0.5, 0.75, 1.0, 1.5):
+            bvals.append(float(lim) + d_)
+    bvals += [values.gen_float(rng, 'DOUBLE') for _ in range(chk.n(300, 5000))]
+    oreqs, oexp = [], []
+    for x in bvals:
+        if not math.isfinite(x):
+            continue
+        node = _expr.BinaryOp(_expr.NumericLiteral(x, _expr.Type.DOUBLE), _expr.NumericLiteral(-1, _expr.Type.LONG), _expr.Operator.AND)
+        try:
+            r = node.fold()
+            e = 'none' if r is node else f'some {r.value}'
+        except Exception as ex:  # noqa: BLE001
+            e = 'host ' + type(ex).__name__
+        oreqs.append(f'fold opconv l {vmops.dbits(x)}')
+        oexp.append(e)
+    chk.corr('fold-operand-conv', oreqs, oexp)
+
     # ---- (2) peephole windows: real optimize vs the model's rules
     nw = 0
     nbw = 0
@@ -227,6 +248,13 @@ def run(chk):
     # ---- (3) constant expressions of every type at every level
     nconst = chk.n(250, 5000)
     texts = [gen_const_expr(rng, rng.choice([1, 1, 2, 2, 3])) for _ in range(nconst)]
+    # boundary operands of the integral operations, DOUBLE and (not single-representable) SINGLE literals
+    for opx in ('\\', 'MOD', 'AND', 'OR', 'XOR', 'EQV', 'IMP'):
+        for lit in ('2147483647.5#', '2147483647.25#', '2147483648#', '(-2147483648.5#)', '(-2147483648.75#)', '32767.5#',
+                    '16777217.0', '2147483600.0', '0.1', '33554433!', '2.5#', '3.5#', '(-0.5#)'):
+            texts.append(f'({lit} {opx} 3)')
+            texts.append(f'(5 {opx} {lit})')
+    nconst = len(texts)
     cres = real.pmap(const_task, texts)
     hits = {}
     nontriv = set()
